@@ -23,6 +23,7 @@
      Release    - silent, by the runner: the queue is empty, the trampoline becomes idle
      Ret        - the call returns; a runner only after Release
      CallCancel / Lin / Ret - item.disposable.dispose()
+     CallReq / LinReq / Ret - schedule_required(): TRUE iff the trampoline is idle at the linearization point
    Order is by due time, first-enqueued-first among equals.  The statement does not say how
    an ABSOLUTE due time that already lies in the past at the scheduling instant compares with
    items due between it and that instant ("due-time order" read on the raw due time, or on
@@ -51,7 +52,8 @@ CONSTANTS Threads,    \* thread ids (small positive integers)
           NegRel,     \* TRUE: also offer schedule_relative(-1) (clamped to 0 by the schedulers)
           ClockMode,  \* "jump" (one thread, discrete-event clock) | "tick" (free clock) | "trace"
           MaxClock,   \* tick mode: the clock ticks freely up to here (and further only while something is pending)
-          Record      \* TRUE: keep the program history (top, body, tops) for export
+          Record,     \* TRUE: keep the program history (top, body, tops) for export
+          Req         \* TRUE: also offer schedule_required() (is the trampoline idle?)
 
 VARIABLES clock,
           n,          \* items created so far (ids 1..n, in call order)
@@ -68,17 +70,18 @@ VARIABLES clock,
           retd,       \* items whose schedule call has returned (their disposable is in the client's hands)
           ran,        \* run log: [id, th, clk, depth, nest]
           active,     \* items whose action is executing
-          budget, top, body, tops, amb
+          budget, top, body, tops, amb,
+          reqs        \* results of the schedule_required() calls, in return order
 
 vars == <<clock, n, isch, itr, iown, due, eff, enq, com, queue, ghost, runner, committed, running,
-          stack, stamp, dead, retd, ran, active, budget, top, body, tops, amb>>
+          stack, stamp, dead, retd, ran, active, budget, top, body, tops, amb, reqs>>
 
 Scheds == SharedS \cup LocalS
 TrampOf(s, th) == IF s \in SharedS THEN <<s, 0>> ELSE <<s, th>>
 Tramps == {<<s, 0>> : s \in SharedS} \cup {<<s, t>> : s \in LocalS, t \in Threads}
 Ids == 1..MaxItems
 Max(a, b) == IF a >= b THEN a ELSE b
-Frame(k, id, left) == [k |-> k, id |-> id, lin |-> FALSE, drain |-> FALSE, left |-> left]
+Frame(k, id, left) == [k |-> k, id |-> id, lin |-> FALSE, drain |-> FALSE, left |-> left, res |-> 2]
 Cmd(c, s, a, b) == [c |-> c, s |-> s, a |-> a, b |-> b]
 
 Init == /\ clock = 0 /\ n = 0
@@ -90,7 +93,7 @@ Init == /\ clock = 0 /\ n = 0
         /\ stack = [t \in Threads |-> <<>>] /\ stamp = [t \in Tramps |-> 0] /\ dead = {} /\ retd = {}
         /\ ran = <<>> /\ active = {} /\ budget = MaxCmds
         /\ top = [t \in Threads |-> <<>>] /\ body = [i \in Ids |-> <<>>] /\ tops = [t \in Threads |-> <<>>]
-        /\ amb = FALSE
+        /\ amb = FALSE /\ reqs = <<>>
 
 Top(th) == stack[th][Len(stack[th])]
 Pop(th) == SubSeq(stack[th], 1, Len(stack[th]) - 1)
@@ -132,6 +135,7 @@ CallSched(th, s, kind, d) ==
        /\ Note(th, Cmd(kind, s, d, x))
     /\ budget' = budget - 1
     /\ UNCHANGED <<clock, enq, com, queue, ghost, runner, committed, running, stamp, dead, retd, ran, active, tops, amb>>
+    /\ UNCHANGED reqs
 
 CallCancel(th, j) ==
     /\ CanIssue(th) /\ j \in retd
@@ -140,10 +144,12 @@ CallCancel(th, j) ==
     /\ budget' = budget - 1
     /\ UNCHANGED <<clock, n, isch, itr, iown, due, eff, enq, com, queue, ghost, runner, committed, running,
                    stamp, dead, retd, ran, active, tops, amb>>
+    /\ UNCHANGED reqs
 
 \* the linearization point of a pending call
 Lin(th) ==
     /\ stack[th] # <<>> /\ Top(th).k \in {"sched", "cancel"} /\ ~Top(th).lin
+    /\ UNCHANGED reqs
     /\ LET f == Top(th)  x == f.id  tr == itr[x] IN
        IF f.k = "sched"
        THEN /\ queue' = [queue EXCEPT ![tr] = @ \cup {x}]
@@ -163,6 +169,22 @@ Lin(th) ==
     /\ UNCHANGED <<clock, n, isch, itr, iown, due, eff, com, committed, running, retd, ran, active,
                    budget, top, body, tops, amb>>
 
+\* schedule_required(): "must the caller schedule?" = is the trampoline of (s, calling thread) idle
+CallReq(th, s) ==
+    /\ CanIssue(th) /\ s \in Scheds
+    /\ stack' = [stack EXCEPT ![th] = Spend(th, Frame("req", s, 0))]
+    /\ Note(th, Cmd("req", s, 0, 0))
+    /\ budget' = budget - 1
+    /\ UNCHANGED <<clock, n, isch, itr, iown, due, eff, enq, com, queue, ghost, runner, committed, running,
+                   stamp, dead, retd, ran, active, tops, amb, reqs>>
+
+LinReq(th) ==
+    /\ stack[th] # <<>> /\ Top(th).k = "req" /\ ~Top(th).lin
+    /\ stack' = SetTop(th, [Top(th) EXCEPT !.lin = TRUE,
+                                           !.res = IF runner[TrampOf(Top(th).id, th)] = 0 THEN 1 ELSE 0])
+    /\ UNCHANGED <<clock, n, isch, itr, iown, due, eff, enq, com, queue, ghost, runner, committed, running,
+                   stamp, dead, retd, ran, active, budget, top, body, tops, amb, reqs>>
+
 Draining(th) == stack[th] # <<>> /\ Top(th).k = "sched" /\ Top(th).lin /\ Top(th).drain
 DrainTr(th) == itr[Top(th).id]
 
@@ -178,6 +200,7 @@ Commit(th, x) ==
        /\ com' = [com EXCEPT ![x] = stamp[tr] + 1] /\ stamp' = [stamp EXCEPT ![tr] = @ + 1]
     /\ UNCHANGED <<clock, n, isch, itr, iown, due, eff, enq, ghost, runner, running, stack, dead, retd, ran, active,
                    budget, top, body, tops>>
+    /\ UNCHANGED reqs
 
 Start(th, x) ==
     /\ Draining(th)
@@ -190,6 +213,7 @@ Start(th, x) ==
     /\ stack' = [stack EXCEPT ![th] = Append(@, Frame("act", x, MaxBody))]
     /\ UNCHANGED <<clock, n, isch, itr, iown, due, eff, enq, com, queue, ghost, runner, stamp, dead, retd,
                    budget, top, body, tops, amb>>
+    /\ UNCHANGED reqs
 
 End(th) ==
     /\ stack[th] # <<>> /\ Top(th).k = "act"
@@ -198,6 +222,7 @@ End(th) ==
     /\ stack' = [stack EXCEPT ![th] = Pop(th)]
     /\ UNCHANGED <<clock, n, isch, itr, iown, due, eff, enq, com, queue, ghost, runner, committed, stamp, dead, retd, ran,
                    budget, top, body, tops, amb>>
+    /\ UNCHANGED reqs
 
 \* the runner finds its trampoline drained and lets go of it (silent: the linearization point of
 \* "the drain is over"; from here on the next schedule call finds the trampoline idle)
@@ -210,11 +235,13 @@ Release(th) ==
     /\ stack' = SetTop(th, [Top(th) EXCEPT !.drain = FALSE])
     /\ UNCHANGED <<clock, n, isch, itr, iown, due, eff, enq, com, queue, ghost, committed, running, stamp, dead, retd, ran, active,
                    budget, top, body, tops, amb>>
+    /\ UNCHANGED reqs
 
 \* a call returns once it owes nothing: a runner only after it released its drained trampoline
 Ret(th) ==
-    /\ stack[th] # <<>> /\ Top(th).k \in {"sched", "cancel"} /\ Top(th).lin /\ ~Top(th).drain
+    /\ stack[th] # <<>> /\ Top(th).k \in {"sched", "cancel", "req"} /\ Top(th).lin /\ ~Top(th).drain
     /\ retd' = IF Top(th).k = "sched" THEN retd \cup {Top(th).id} ELSE retd
+    /\ reqs' = IF Top(th).k = "req" THEN Append(reqs, Top(th).res) ELSE reqs
     /\ stack' = [stack EXCEPT ![th] = Pop(th)]
     /\ tops' = IF Record /\ Len(stack[th]) = 1 THEN [tops EXCEPT ![th] = Append(@, <<clock, Len(ran)>>)] ELSE tops
     /\ UNCHANGED <<clock, n, isch, itr, iown, due, eff, enq, com, queue, ghost, runner, committed, running, stamp, dead, ran, active,
@@ -230,6 +257,7 @@ Sleep(th, d) ==
     /\ tops' = IF Record /\ stack[th] = <<>> THEN [tops EXCEPT ![th] = Append(@, <<clock + d, Len(ran)>>)] ELSE tops
     /\ budget' = budget - 1
     /\ UNCHANGED <<n, isch, itr, iown, due, eff, enq, com, queue, ghost, runner, committed, running, stamp, dead, retd, ran, active, amb>>
+    /\ UNCHANGED reqs
 
 \* ... and a runner with nothing due waits for the earliest pending item (discrete-event rule).
 \* No pending item is due here, so raw and effective due times coincide and the order is total.
@@ -242,6 +270,7 @@ Jump(th) ==
                                /\ clock' = due[m]
     /\ UNCHANGED <<n, isch, itr, iown, due, eff, enq, com, queue, ghost, runner, committed, running, stack, stamp, dead, retd,
                    ran, active, budget, top, body, tops, amb>>
+    /\ UNCHANGED reqs
 
 \* the statement is silent on whether the runner still waits for a cancelled timed item
 Discard(th, x) ==
@@ -254,20 +283,22 @@ Discard(th, x) ==
     /\ amb' = (amb \/ due[x] > clock)
     /\ UNCHANGED <<n, isch, itr, iown, due, eff, enq, com, queue, runner, committed, running, stack, stamp, dead, retd,
                    ran, active, budget, top, body, tops>>
+    /\ UNCHANGED reqs
 
 Tick == /\ ClockMode = "tick"
         /\ clock < MaxClock \/ \E tr \in Tramps : \E x \in queue[tr] : due[x] > clock
         /\ clock' = clock + 1
         /\ UNCHANGED <<n, isch, itr, iown, due, eff, enq, com, queue, ghost, runner, committed, running, stack, stamp, dead, retd,
-                       ran, active, budget, top, body, tops, amb>>
+                       ran, active, budget, top, body, tops, amb, reqs>>
 
 (* ---- the generator: what clients do ---------------------------------------------------------- *)
 GenSched(th)  == budget > 0 /\ \E s \in Scheds : \E k \in Kinds : CallSched(th, s, k[1], k[2])
 GenCancel(th) == budget > 0 /\ \E j \in retd : CallCancel(th, j)
 GenSleep(th)  == budget > 0 /\ \E d \in SleepD : Sleep(th, d)
+GenReq(th)    == Req /\ budget > 0 /\ \E s \in Scheds : CallReq(th, s)
 
-Next == \/ \E th \in Threads : \/ GenSched(th) \/ GenCancel(th) \/ GenSleep(th)
-                               \/ Lin(th) \/ Release(th) \/ Ret(th) \/ End(th) \/ Jump(th)
+Next == \/ \E th \in Threads : \/ GenSched(th) \/ GenCancel(th) \/ GenSleep(th) \/ GenReq(th)
+                               \/ Lin(th) \/ LinReq(th) \/ Release(th) \/ Ret(th) \/ End(th) \/ Jump(th)
                                \/ \E x \in Ids : Commit(th, x) \/ Start(th, x) \/ Discard(th, x)
         \/ Tick
 
@@ -305,11 +336,11 @@ AllRun == Quiet => /\ \A i \in 1..n : i \in RanIds \/ i \in dead
 Monotone == [][clock' >= clock]_vars
 
 DesignView == <<clock, n, isch, itr, iown, due, eff, enq, com, queue, ghost, runner, committed, running,
-                stack, stamp, dead, retd, ran, active, budget>>
+                stack, stamp, dead, retd, ran, active, budget, reqs>>
 
 (* ---- export (Binding A and program generation) ------------------------------------------------- *)
 Proj(r) == [id |-> r.id, clk |-> r.clk, depth |-> r.depth]
 Export == (Record /\ Quiet /\ budget = 0) =>
             PrintT(ToJson([scn |-> [top |-> top, body |-> body, n |-> n],
-                           obs |-> [ran |-> [i \in 1..Len(ran) |-> Proj(ran[i])], tops |-> tops, amb |-> amb]]))
+                           obs |-> [ran |-> [i \in 1..Len(ran) |-> Proj(ran[i])], tops |-> tops, reqs |-> reqs, amb |-> amb]]))
 ================================================================================
